@@ -291,8 +291,15 @@ def run_C19(ctx):
         ids = {r["id"] for r in s_usable}
         sc = [dict(c, flagsets=allS) for c in s_cases if c["id"] in ids][:14]
         ide = {r["id"] for r in e_usable}
+        # hand-written tasks whose families are most likely to differ first: equivalences that are not plain definitions (negative
+        # positions, one-sided prefix variables, existential prefixes) and private predicates without rules
+        def flag_sensitive(c):
+            txt = c.get("spec", "") + " | " + c.get("left", "") + " | " + c.get("right", "")
+            return ("<->" in c.get("spec", "") and not c.get("spec", "").startswith("spec: forall X (p(X) <-> q(X)")) or "aux(X)" in txt and "aux(X) :-" not in txt
         hand = [c for c in e_cases if c["id"] in ide and c["id"].startswith("h")]
-        ec = [dict(c, flagsets=allE) for c in (hand[-14:] + [c for c in e_cases if c["id"] in ide and not c["id"].startswith("h")])][:22]
+        first = [c for c in hand if flag_sensitive(c)]
+        rest = [c for c in hand if not flag_sensitive(c)]
+        ec = [dict(c, flagsets=allE) for c in (first[:16] + [c for c in e_cases if c["id"] in ide and not c["id"].startswith("h")][:6] + rest)][:24]
         pp = {r["id"]: r["pp"] for r in s_usable + e_usable}
         recs = V.run_harness(ctx, "problems", sc, tag="-s19") + V.run_harness(ctx, "problems", ec, tag="-e19")
         usable = []
